@@ -120,6 +120,16 @@ def rule_T1(ctx, rule="T1-tags"):
                     ok = path not in anchors(F) and anchor_callers(F, path) and anchor_callers(F, path) <= set(audited)
                     ctx.ob(rule, path, "inline-bytes-writer", bool(ok), line=s.get("line"), how="helper of an audited tag writer",
                            detail="%s stores into the inline buffer's bytes by index: the tag byte has three audited writers (InlineBuffer::new / empty / set_len, each evaluated for every length); a store made anywhere else is not known to leave a valid tag or text byte" % path)
+    # ... nor builds an InlineBuffer from bytes of its own: `InlineBuffer(bytes)` appears in new / empty only
+    for path, b in F.bodies.items():
+        if path in audited:
+            continue
+        for bb, blk in enumerate(b.blocks):
+            for s in blk["stmts"]:
+                if s["k"] == "assign" and s["rv"]["k"] == "aggregate" and s["rv"].get("adt") == "repr::inline_buffer::InlineBuffer":
+                    ok = path not in anchors(F) and anchor_callers(F, path) and anchor_callers(F, path) <= set(audited)
+                    ctx.ob(rule, path, "inline-buffer-constructor", bool(ok), line=s.get("line"), how="helper of an audited tag writer",
+                           detail="%s builds an InlineBuffer directly: the tag byte of a buffer made here is not one the audited writers (InlineBuffer::new / empty, evaluated for every length) produced - a full buffer has no tag byte at all" % path)
     # readers: is_heap_buffer / is_static_buffer summaries, by kind
     S = Solver(F)
     for fn, kind in (("repr::Repr::is_heap_buffer", "H"), ("repr::Repr::is_static_buffer", "S")):
